@@ -1,7 +1,8 @@
 (* C06 — property theorems only. Each is closed by [exact] of a lemma proved in C06/Proofs*.v. *)
 From Coq Require Import List Arith Bool ZArith QArith Lia.
+From Coq Require PrimFloat.   (* not imported: primitives must print qualified under Print Assumptions *)
 Import ListNotations.
-From AgileV Require Import C06.Model C06.Proofs C06.ProofsAgent.
+From AgileV Require Import C06.Model C06.Proofs C06.ProofsAgent C06.ProofsFloat.
 Local Open Scope Q_scope.
 
 (* ---------------- value level (RLParam(eter).mutate on exact rationals) ---------------- *)
@@ -51,6 +52,25 @@ Theorem drift_bounded : forall (p : param Q), range_ok p ->
 Proof. exact mutate_seq_in_range. Qed.
 Print Assumptions drift_bounded.
 
+(* ---------------- value level, binary64 instance (the arithmetic that actually runs) ---------------- *)
+(* For a float-typed hyperparameter the binary64 result is never below min nor above max, whatever the
+   rounding of the product did; likewise over any number of successive mutations.
+   Depends on the standard library's specification axiom of PrimFloat.ltb (FloatAxioms.ltb_spec). *)
+Theorem float_mutate_in_range : forall (p : param PrimFloat.float) (u v : PrimFloat.float),
+  p_int p = false -> PrimFloat.ltb (p_max p) (p_min p) = false ->
+  PrimFloat.ltb (mutate_value FOps p u v) (p_min p) = false /\
+  PrimFloat.ltb (p_max p) (mutate_value FOps p u v) = false.
+Proof. exact float_mutate_in_range_lemma. Qed.
+Print Assumptions float_mutate_in_range.
+
+Theorem float_drift_bounded : forall (p : param PrimFloat.float),
+  p_int p = false -> PrimFloat.ltb (p_max p) (p_min p) = false ->
+  forall (us : list PrimFloat.float) (v : PrimFloat.float),
+  Forall (fun r => PrimFloat.ltb r (p_min p) = false /\ PrimFloat.ltb (p_max p) r = false)
+         (mutate_seq FOps p v us).
+Proof. exact float_drift_bounded_lemma. Qed.
+Print Assumptions float_drift_bounded.
+
 (* ---------------- agent level (any number carrier: rationals AND binary64) ---------------- *)
 
 (* Exactly one configured hyperparameter changes: the sampled one becomes the mutation of the
@@ -95,6 +115,17 @@ Theorem invariant_over_histories :
   Forall Inv pop -> Forall Inv (pop_run O pop ops).
 Proof. exact @pop_run_inv. Qed.
 Print Assumptions invariant_over_histories.
+
+(* Architecture / parameter / activation mutations (which re-create every optimizer from the attributes)
+   move no hyperparameter and, under the invariant, no learning rate of any param group. *)
+Theorem other_mutations_keep_learning_rates :
+  forall (T : Type) (a : agent T) (j : nat) (o : optim T),
+  Inv a -> nth_error (a_opts a) j = Some o ->
+  exists o', nth_error (a_opts (other_mutation a)) j = Some o' /\
+             o_wlr o' = o_wlr o /\ Forall (fun g => g = o_wlr o) (o_groups o') /\
+             length (o_groups o') = length (o_groups o) /\ a_vals (other_mutation a) = a_vals a.
+Proof. exact @other_mutation_keeps_lrs. Qed.
+Print Assumptions other_mutations_keep_learning_rates.
 
 (* a population as create_population builds it satisfies the invariant: the computed registry check,
    empty caches, optimizers created with the attribute values *)
